@@ -108,7 +108,7 @@ func c07r1(c *Ctx, id string) {
 		}
 	})
 	c.Check(okExit && exits > 0, id, "wait-exit@"+fname(wait), wait.Pos(), "the wait returns only after checkPersistSeqNo(seqNo)=true", "the wait loop has an exit that is not guarded by checkPersistSeqNo(seqNo)=true")
-	c.Floor(id, 15)
+	c.Floor(id, 12)
 }
 
 func c07r2(c *Ctx, id string) {
